@@ -99,6 +99,13 @@ fn judge_result<T: std::fmt::Debug>(r: Result<Result<T, AstrolabeError>, Panic>,
             match &e {
                 AstrolabeError::OutOfRange(_) => {
                     let msg = e.to_string();
+                    // the message is the same through every way of turning the error into text
+                    let by_ref = String::from(&e);
+                    let dbg_has = format!("{}", &e);
+                    let by_val: String = e.clone().into();
+                    if by_ref != msg || by_val != msg || dbg_has != msg {
+                        return Verdict::Bad("message-differs-between-Display-and-String::from", json!({"to_string()": msg, "String::from(&e)": by_ref, "String::from(e)": by_val}));
+                    }
                     if let Some((name, a, b)) = stated_range(&msg) {
                         if let Err(why) = range_check(&name, a, b) {
                             return Verdict::Bad("stated-range-inconsistent", json!({"error": msg, "why": why}));
@@ -480,6 +487,31 @@ pub fn run(ctx: &Ctx) -> PropResult {
         };
         judge_from_ymd(rec, y, m, d, idx % 3 != 0 || hms.is_some(), hms);
     }));
+    // dates with a history of special treatment in other libraries and standards (leap-second days, calendar-reform
+    // gaps, well-known epochs and roll-overs): every field combination around them, with seconds 59/60/61 and hours
+    // 23/24 — a constructor must treat them like any other date
+    wls.push(Workload::cases("notable_dates_x_boundary_times", 1, |rec, _, _| {
+        let mut dates: Vec<(i64, u32, u32)> = vec![];
+        for (y, june) in [(1972, true), (1972, false), (1973, false), (1974, false), (1975, false), (1976, false), (1977, false), (1978, false), (1979, false), (1981, true), (1982, true), (1983, true), (1985, true), (1987, false), (1989, false), (1990, false), (1992, true), (1993, true), (1994, true), (1995, false), (1997, true), (1998, false), (2005, false), (2008, false), (2012, true), (2015, true), (2016, false)] {
+            dates.push(if june { (y, 6, 30) } else { (y, 12, 31) });
+        }
+        for d in 3..=16u32 {
+            dates.push((1582, 10, d));
+            dates.push((1752, 9, d));
+        }
+        dates.extend_from_slice(&[(1712, 2, 29), (1712, 2, 30), (1900, 2, 28), (1900, 2, 29), (1900, 3, 1), (1970, 1, 1), (1969, 12, 31), (2000, 2, 29), (2038, 1, 19), (2038, 1, 20), (1601, 1, 1), (1904, 1, 1), (1980, 1, 6), (2001, 9, 9), (2286, 11, 20), (2106, 2, 7), (1, 1, 1), (-1, 12, 31), (9999, 12, 31), (10000, 1, 1), (-4713, 11, 24), (1858, 11, 17), (2262, 4, 11), (1677, 9, 21), (292_277_026_596i64.min(5_879_611), 7, 12)]);
+        for (y, m, d) in dates {
+            judge_from_ymd(rec, y, m, d, true, None);
+            for h in [0u32, 23, 24] {
+                for mi in [0u32, 59, 60] {
+                    for s in [0u32, 58, 59, 60, 61] {
+                        judge_from_ymd(rec, y, m, d, true, Some((h, mi, s)));
+                    }
+                }
+            }
+        }
+        rec.bin("ctor/notable-dates");
+    }));
     wls.push(Workload::cases("from_hms_grid", 1, |rec, _, _| {
         let hs = [0u32, 1, 22, 23, 24, 25, 255, 256, 1_193_046, 1_193_047, (1 << 31) - 1, 1 << 31, u32::MAX - 1, u32::MAX];
         let ms = [0u32, 1, 58, 59, 60, 61, 255, 256, 71_582_788, 71_582_789, (1 << 31) - 1, 1 << 31, u32::MAX];
@@ -577,6 +609,7 @@ pub fn run(ctx: &Ctx) -> PropResult {
     let mut meta = PropMeta::default();
     meta.rule = "boundary-dense argument tuples: every parameter from {0, 1, max−1, max, max+1, 2^31−1, 2^31, 2^32−1(−1), values whose product with the unit would wrap u32, random, and for from_nanos k·2^32 whole seconds/milliseconds/microseconds/minutes + an in-day remainder}; cartesian grids for from_ymd (23 years x 16 months x 20 days, Date and DateTime), from_hms (Time, DateTime, Offset) and the scalar constructors; pairwise-style random tuples for from_ymdhms; all set_* of DateTime (incl. values at the very ends of the range carrying an offset), Date and Time. Oracle: documented ranges + calendar existence + representability ⇒ Ok with exactly the modelled value; otherwise Err(OutOfRange) — never a panic — and when the message has the shape \"<name> must be in the range a..=b\" the range must exclude the offending component and contain every value of that component the model would accept given the other arguments. Every case non-trivial; distinct by input hash. API walks: setters applied to receivers that are themselves results of earlier operations (clamped month/year shifts, arithmetic, offset changes), accept/refuse judged against the model.".into();
     meta.required_bins = vec![
+        "ctor/notable-dates",
         "date-walk/with-judged-steps","ctor/valid", "ctor/invalid", "setter/valid", "setter/invalid", "setter/result-not-representable", "setter/at-range-end-with-offset"];
     meta.assumptions = vec!["which parameter an error names when several are invalid, and the wording, are not judged".into()];
     let _ = (TimeUtilities::hour(&Time::default()), OffsetUtilities::get_offset(&Time::default()));
